@@ -322,10 +322,107 @@ def gen_c20_scans(ctx):
          not bad, detail='; '.join(bad))
 
 
+# --------------------------------------------------------------------------------------------- C09 / C07 single-writer scans
+def attr_stores(repo, attr):
+    out = []
+    for mn, m in repo.modules.items():
+        for fn in [f for f in repo.all_functions() if f.module is m]:
+            for n in ast.walk(fn.node):
+                tgts = n.targets if isinstance(n, ast.Assign) else ([n.target] if isinstance(n, (ast.AugAssign, ast.AnnAssign)) else [])
+                for t in tgts:
+                    for tt in ast.walk(t):
+                        if isinstance(tt, ast.Attribute) and tt.attr == attr and isinstance(tt.ctx, ast.Store):
+                            out.append((fn.qualname, n.lineno))
+    return sorted(set(out))
+
+
+def gen_c09_scans(ctx):
+    repo = ctx.repo
+    P = ['C09']
+    st_ = attr_stores(repo, 'state')
+    ok = {q for q, _ in st_} <= {'droop.candidate.Candidate.__init__', 'droop.candidate.Candidate.elect',
+                                 'droop.candidate.Candidate.unelect', 'droop.candidate.Candidate.defeat'}
+    scan(ctx, P, 'droop/**/*.py', 'single-writer-state', 'Candidate.state is assigned only in __init__, elect, unelect, defeat', ok, detail=str(st_))
+    pe = attr_stores(repo, 'pending')
+    ok = {q for q, _ in pe} <= {'droop.candidate.Candidate.__init__', 'droop.candidate.Candidate.elect', 'droop.candidate.Candidate.unpend'}
+    scan(ctx, P, 'droop/**/*.py', 'single-writer-pending', 'Candidate.pending is assigned only in __init__, elect, unpend', ok, detail=str(pe))
+    rd = attr_stores(repo, 'round')
+    ok = {q for q, _ in rd} <= {'droop.election.Election.__init__', 'droop.election.Election.newRound'}
+    scan(ctx, P, 'droop/**/*.py', 'single-writer-round', 'E.round is assigned only in Election.__init__ and newRound', ok, detail=str(rd))
+    bad = []
+    for mn, m in repo.modules.items():
+        for n in ast.walk(m.tree):
+            if isinstance(n, ast.Call) and isinstance(n.func, ast.Name) and n.func.id in ('setattr', 'delattr') and mn != 'droop.values.rational':
+                bad.append('%s:%d' % (mn, n.lineno))
+            if isinstance(n, ast.Attribute) and n.attr == '__dict__':
+                bad.append('%s:%d __dict__' % (mn, n.lineno))
+    scan(ctx, P, 'droop/**/*.py', 'no-reflective-writes', 'no setattr/__dict__ writes outside the Rational wrapper loop', not bad, detail=str(bad))
+    # unelect is called only in QPQ's restart block
+    calls = []
+    for mn, m in repo.modules.items():
+        for n in ast.walk(m.tree):
+            if isinstance(n, ast.Call) and isinstance(n.func, ast.Attribute) and n.func.attr == 'unelect':
+                calls.append('%s:%d' % (mn, n.lineno))
+    qp = repo.resolve('droop.rules.qpq.Rule.count')
+    ok = False
+    if qp is not None and len(calls) == 1 and calls[0].startswith('droop.rules.qpq:'):
+        for n in ast.walk(qp.node):
+            if isinstance(n, ast.If) and norm_src(n.test) == 'restart':
+                ok = any(isinstance(c, ast.Call) and isinstance(c.func, ast.Attribute) and c.func.attr == 'unelect' for c in ast.walk(n))
+    scan(ctx, P, 'droop.rules.qpq.Rule.count', 'unelect-only-in-restart', 'unelect() is called only inside QPQ\'s restart block', ok, detail=str(calls))
+    # ballots: index / multiplier / ranking written only by Ballot methods
+    for attr, allowed in (('index', {'droop.election.Election.Ballot.__init__', 'droop.election.Election.Ballot.advance',
+                                     'droop.election.Election.Ballot.restart'}),
+                          ('multiplier', {'droop.election.Election.Ballot.__init__', 'droop.profile.ElectionProfile.BallotLine.__init__'}),
+                          ('ranking', {'droop.election.Election.Ballot.__init__', 'droop.profile.ElectionProfile.BallotLine.__init__'})):
+        w = attr_stores(repo, attr)
+        scan(ctx, ['C09', 'C06', 'C02'], 'droop/**/*.py', 'single-writer-ballot-' + attr,
+             'Ballot.%s is assigned only by the Ballot / BallotLine methods (data-structure invariant of ballots)' % attr,
+             {q for q, _ in w} <= allowed, detail=str(w))
+
+
+def gen_c07_scans(ctx):
+    repo = ctx.repo
+    P = ['C07']
+    reads = []
+    for mn, m in repo.modules.items():
+        for fn in [f for f in repo.all_functions() if f.module is m]:
+            for n in ast.walk(fn.node):
+                if isinstance(n, ast.Attribute) and n.attr == 'tieOrder' and isinstance(n.ctx, ast.Load):
+                    reads.append(fn.qualname)
+    ok = set(reads) <= {'droop.candidates.Candidates.byTieOrder', 'droop.candidate.Candidate.as_dict',
+                        'droop.election.Election.__init__', 'droop.profile.ElectionProfile.__init__',
+                        'droop.profile.ElectionProfile._ElectionProfile__bltOptionTie'}
+    scan(ctx, P, 'droop/**/*.py', 'tieorder-reads', 'the tie-break order is read only by Candidates.byTieOrder (and copied at construction / into the record)',
+         ok, detail=str(sorted(set(reads))))
+    callers = []
+    for mn, m in repo.modules.items():
+        for fn in [f for f in repo.all_functions() if f.module is m]:
+            for n in ast.walk(fn.node):
+                if isinstance(n, ast.Call) and isinstance(n.func, ast.Attribute) and n.func.attr == 'byTieOrder':
+                    callers.append(fn.qualname)
+                if isinstance(n, ast.Constant) and n.value == 'tie' and fn.qualname.startswith('droop.rules') and False:
+                    pass
+    ok = all(q.endswith('.breakTie') or q == 'droop.candidates.Candidates.select' for q in callers)
+    scan(ctx, P, 'droop/**/*.py', 'bytieorder-callers', 'byTieOrder is called only from the breakTie closures (after the single-candidate return) and select(order="tie")',
+         ok, detail=str(sorted(set(callers))))
+    sel = []
+    for mn in RULE_MODULES:
+        m = repo.module(mn)
+        for n in ast.walk(m.tree):
+            if isinstance(n, ast.keyword) and n.arg == 'order' and isinstance(n.value, ast.Constant) and n.value.value == 'tie':
+                sel.append('%s:%d' % (mn, n.value.lineno))
+    scan(ctx, P, 'droop/rules/*.py', 'no-tie-ordered-select', 'no rule selects candidates in tie order outside breakTie', not sel, detail=str(sel))
+
+
 GENERATORS = {
     'C12': [gen_c12_scans],
     'C13': [gen_c13_scans],
     'C14': [gen_c14_scans],
     'C17': [gen_c17_scans],
+    'C09': [gen_c09_scans],
+    'C07': [gen_c07_scans],
+    'C06': [gen_c09_scans],
+    'C02': [gen_c09_scans],
     'C20': [gen_c20_scans],
 }
